@@ -62,6 +62,10 @@ pub enum FinalReply {
     Version(u64),
     /// same integer with `n` extra high-order zero bytes (don't-care class)
     ZeroExtended(usize),
+    /// the first n bytes of key+1 only (n < key length; n = 0 is an empty value), correctly sealed
+    SealedPrefix(usize),
+    /// key+1 followed by non-zero bytes, correctly sealed
+    SealedWithTrailing(usize),
     /// nothing is sent, the connection is closed
     Eof,
 }
@@ -97,6 +101,8 @@ pub struct ServerParams {
     pub disconnect_after_script: bool,
     /// after the licence the server sends nothing by itself and only records client messages
     pub manual: bool,
+    /// reactivations reuse the share id of the first activation (a server may do either)
+    pub reuse_share_id: bool,
 }
 
 impl Default for ServerParams {
@@ -127,6 +133,7 @@ impl Default for ServerParams {
             script: vec![],
             disconnect_after_script: false,
             manual: false,
+            reuse_share_id: false,
         }
     }
 }
@@ -523,7 +530,7 @@ impl RefServer {
 
     /// share id of the current (or next) activation: a server assigns a fresh share id on every reactivation
     pub fn current_share_id(&self) -> u32 {
-        share_id_of_activation(self.p.share_id, self.activations_done)
+        share_id_of_activation(self.p.share_id, if self.p.reuse_share_id { 0 } else { self.activations_done })
     }
 
     fn demand_active_bytes(&self) -> Vec<u8> {
@@ -877,7 +884,7 @@ impl RefServer {
             }
             Phase::Active => {
                 if self.activations_done <= self.p.reactivations {
-                    let d = self.sdi(&share::deactivate_all(share_id_of_activation(self.p.share_id, self.activations_done - 1), 1002));
+                    let d = self.sdi(&share::deactivate_all(share_id_of_activation(self.p.share_id, if self.p.reuse_share_id { 0 } else { self.activations_done - 1 }), 1002));
                     self.emit("deactivate_all", d, &mut out);
                     let b = self.demand_active_bytes();
                     self.emit("demand_active", b, &mut out);
@@ -978,6 +985,15 @@ impl RefServer {
             FinalReply::ZeroExtended(n) => {
                 let mut p = honest_plain.clone();
                 p.extend(std::iter::repeat(0).take(n));
+                wrap_honest(&mut s2c, &p)
+            }
+            FinalReply::SealedPrefix(n) => {
+                let p = honest_plain[..n.min(honest_plain.len())].to_vec();
+                wrap_honest(&mut s2c, &p)
+            }
+            FinalReply::SealedWithTrailing(n) => {
+                let mut p = honest_plain.clone();
+                p.extend(std::iter::repeat(0x01).take(n));
                 wrap_honest(&mut s2c, &p)
             }
             FinalReply::Eof => return None,
